@@ -266,6 +266,8 @@ def run(ctx):
                    "def ok():\n    log('ok')\n    return term('ok')\n\n"
                    "def ok2():\n    log('ok2')\n    return term('ok2')\n\n"
                    "def bad():\n    log('bad')\n    boom(%r, 'tok%d')\n\n"
+                   "def ok3():\n    log('ok3')\n    return term('ok3')\n\n"
+                   "def after():\n    return term('after', dds.keep('/k/after/ok3', ok3))\n\n"
                    "def warm():\n    return term('warm', dds.keep('/k/ok', ok), dds.keep('/k/ok2', ok2))\n\n"
                    "def f0():\n    a = dds.keep('/k/ok', ok)\n    a2 = dds.keep('/k/ok2', ok2)\n    b = dds.keep('/k/bad', bad)\n    return term('f0', a, a2, b)\n" % (kind, ki))
             os.makedirs(os.path.join(base, pkg), exist_ok=True)
@@ -288,12 +290,15 @@ def run(ctx):
             before = snapshot()
             del ddsverif_rt.LOG[:]
             del ddsverif_rt.RAISED[:]
+            # the failing evaluation is a full one, or a trial run restricted to a prefix of the stages that contains the evaluation
+            stages = [None, ["analysis", "store_inspect", "eval"], ["analysis", "store_inspect", "eval", "store_commit"]][(ki // 3 + ki) % 3]
             try:
-                v = dds.eval(mod.f0)
+                v = dds.eval(mod.f0) if stages is None else dds.eval(mod.f0, dds_stages=stages)
                 out = ("returned", repr(v))
             except BaseException as e:
                 out = ("raised", type(e).__name__, bool(ddsverif_rt.RAISED) and e is ddsverif_rt.RAISED[0])
             ran = [x for x in ddsverif_rt.LOG if x == "bad"]
+            res.count("public_api_failing_run_stages_%s" % ("all" if stages is None else len(stages)))
             res.evaluations += 1
             res.count("public_api_warm_cache_kinds")
             res.nontrivial("public api warm cache %s" % kind)
@@ -304,9 +309,25 @@ def run(ctx):
                 bad = "the failing function was executed %d times" % len(ran)
             elif snapshot() != before:
                 bad = "files appeared in / disappeared from the store: %s" % sorted(set(snapshot()) ^ set(before))
+            if bad is None:
+                # dds stays usable: the next (full) evaluation in the same process stores and commits as if the failed one had not happened
+                try:
+                    del ddsverif_rt.LOG[:]
+                    va = dds.eval(mod.after)
+                    first = list(ddsverif_rt.LOG)
+                    lv = dds.load("/k/after/ok3")
+                    del ddsverif_rt.LOG[:]
+                    vb = dds.eval(mod.after)
+                    second = list(ddsverif_rt.LOG)
+                    new_files = sorted(set(snapshot()) - set(before))
+                    if first != ["ok3"] or second != [] or va != vb or lv != mod.ok3() or not new_files:
+                        bad = ("the next evaluation in the same process is not a normal one: it executes %s, evaluated again it executes %s, values %r / %r, "
+                               "load gives %r, new files in the store: %d" % (first, second, va, vb, lv, len(new_files)))
+                except BaseException as e:
+                    bad = "the next evaluation in the same process fails: %s: %s" % (type(e).__name__, str(e)[:200])
             if bad:
-                res.violations.append({"what": "a kept function raises %s on a local store with the object cache (warm): %s" % (kind, bad),
-                                       "input": {"source": src, "cache_objects": [True, 2, 100][ki % 3]}, "kf": None})
+                res.violations.append({"what": "a kept function raises %s on a local store with the object cache (warm), stages of the failing run %s: %s" % (kind, stages, bad),
+                                       "input": {"source": src, "cache_objects": [True, 2, 100][ki % 3], "stages": stages}, "kf": None})
         finally:
             api._eval_ctx = None
             if base in sys.path:
